@@ -107,7 +107,7 @@ def trnorm_case(seed, rng, ctx):
         model = [struct.unpack('<d', struct.pack('<Q', int(x)))[0] for x in resp.split()[1:]]
         if isinstance(code, tuple) or len(model) != len(code) or any(abs(a - c) > 1e-9 for a, c in zip(model, code)):
             fails.append(fail('disagreement', 'normalize_transform(%r): model %r / code %r' % (tr, model, code), {'stream': 'trnorm'}, rp))
-        elif kind not in ('bad4',) and len(code) == 12:
+        if not isinstance(code, tuple) and kind not in ('bad4',) and len(code) == 12:
             # spec: the completed matrix is a proper rotation and reproduces every supplied entry
             mat = code[3:]
             rows = [mat[0:3], mat[3:6], mat[6:9]]
